@@ -120,6 +120,56 @@ def enumerate {α} (xs : List α) : List (Nat × α) := enumerateFrom 0 xs
 /-- `np.delete(arr, idx, axis=0)` for indices inside the array -/
 def npDelete {α} (arr : List α) (idx : List Nat) : List α := deleteIdx arr idx
 
+/-- python `sorted(xs, reverse=True)` on ints (insertion sort: structurally recursive) -/
+def insertDesc (x : Int) : List Int → List Int
+  | [] => [x]
+  | y :: ys => if x ≥ y then x :: y :: ys else y :: insertDesc x ys
+def sortedDesc (xs : List Int) : List Int := xs.foldr insertDesc []
+/-- python `sorted(xs)` on ints -/
+def insertAsc (x : Int) : List Int → List Int
+  | [] => [x]
+  | y :: ys => if x ≤ y then x :: y :: ys else y :: insertAsc x ys
+def sortedAsc (xs : List Int) : List Int := xs.foldr insertAsc []
+
+/-- `xs.sort(key=f)` with an integer key: ascending, entries with equal keys keep their order (python's sort is stable) -/
+def insertByKey {α} (key : α → Int) (x : α) : List α → List α
+  | [] => [x]
+  | y :: ys => if key x ≤ key y then x :: y :: ys else y :: insertByKey key x ys
+def sortByKey {α} (xs : List α) (key : α → Int) : List α := xs.foldr (insertByKey key) []
+
+/-- python `xs * n` on a list: `n` copies one after the other, none for `n ≤ 0` -/
+def listRepeat {α} (xs : List α) (n : Int) : List α := (List.replicate n.toNat xs).flatten
+
+/-- `np.ceil(x)` as an integer -/
+def ceil (x : Rat) : Int := Rat.ceil x
+
+/-- `d[k] = v` on an insertion-ordered dict: an existing key keeps its position and takes the new value -/
+def dictInsert {κ β} [DecidableEq κ] : List (κ × β) → κ → β → List (κ × β)
+  | [], k, v => [(k, v)]
+  | (k', v') :: rest, k, v => if k' = k then (k, v) :: rest else (k', v') :: dictInsert rest k v
+/-- `{key(a, b): val(a, b) for a, b in d.items()}` -/
+def dictComp {κ β κ' β'} [DecidableEq κ'] (d : List (κ × β)) (f : κ × β → κ' × β') : List (κ' × β') :=
+  d.foldl (fun acc p => dictInsert acc (f p).1 (f p).2) []
+/-- the same when computing a key or a value may raise -/
+def dictCompM? {κ β κ' β'} [DecidableEq κ'] (d : List (κ × β)) (f : κ × β → Option (κ' × β')) : Option (List (κ' × β')) :=
+  d.foldl (fun acc p => match acc, f p with
+    | some m, some kv => some (dictInsert m kv.1 kv.2)
+    | _, _ => none) (some [])
+
+/-- `a, b = s.split(c, 1)`: the text before and after the FIRST `c`; `none` = ValueError (no `c`: one part only) -/
+def splitAtFirst (c : Char) : List Char → List Char × Option (List Char)
+  | [] => ([], none)
+  | x :: xs => if x = c then ([], some xs) else ((x :: (splitAtFirst c xs).1), (splitAtFirst c xs).2)
+def strSplit1? (s : String) (c : Char) : Option (String × String) :=
+  match splitAtFirst c s.toList with
+  | (a, some b) => some (String.ofList a, String.ofList b)
+  | (_, none) => none
+/-- python `str.isspace` on ASCII: blank, `\t \n \v \f \r`, `\x1c … \x1f` -/
+def isWs (c : Char) : Bool := c.val == 32 || (9 ≤ c.val && c.val ≤ 13) || (28 ≤ c.val && c.val ≤ 31)
+/-- `s.strip()`: without the leading and the trailing blanks -/
+def strStripWs (s : String) : String :=
+  String.ofList (((s.toList.dropWhile isWs).reverse.dropWhile isWs).reverse)
+
 /-- `np.subtract(arr, k, out=arr, where=arr > i)` on a 2-D index array -/
 def npSubWhereGt (arr : List (List Nat)) (k i : Nat) : List (List Nat) :=
   arr.map (fun row => row.map (fun x => if x > i then x - k else x))
@@ -557,5 +607,99 @@ def deleteAndReindex (arr : List (List Nat)) (sorted_deleted_indices : List Nat)
       updated_arr
       )
   (updated_arr, arr_idx_to_delete)
+
+/-- translated from `__delitem__` in mofun/atoms.py class Atoms (FRAGMENT: the index list handed to the term code, `sorted({i % num_atoms for i in indices}, reverse=True)`; `none` = ZeroDivisionError) -/
+def delitemSortedIndices (self_len : Nat) (indices : List Int) : Option (List Int) := do
+  let num_atoms : Nat := self_len
+  let t2 ← (Py.listMapM? indices (fun i => (do let t1 ← (Py.intMod? i ((num_atoms : Nat) : Int)); pure t1)))
+  pure (Py.sortedDesc (dedup t2))
+
+/-- translated from `extend.plain_index` in mofun/atoms.py class Atoms; `none` = the IndexError it raises -/
+def plainIndex (i : Int) (n : Nat) : Option Int := do
+  if (!((decide ((-((n : Nat) : Int)) ≤ i)) && (decide (i < ((n : Nat) : Int))))) then
+    none  -- raise
+  else
+    let t1 ← (Py.intMod? i ((n : Nat) : Int))
+    pure t1
+
+/-- translated from `extend` in mofun/atoms.py class Atoms (FRAGMENT: the normalised structure_index_map, a dict comprehension over the given one; `none` = IndexError) -/
+def extendIndexMap (self_len : Nat) (other_len : Nat) (structure_index_map : List (Int × Int)) : Option (List (Int × Int)) := do
+  let t3 ← (Py.dictCompM? structure_index_map (fun (k, v) => (do let t1 ← (plainIndex k other_len); let t2 ← (plainIndex v self_len); pure (t1, t2))))
+  pure t3
+
+/-- translated from `extend` in mofun/atoms.py class Atoms (FRAGMENT: explicit offsets padded to five entries, `tuple(offsets) + (0,) * (5 - len(offsets))`) -/
+def extendPadOffsets (offsets : List Nat) : List Nat :=
+  (offsets ++ (Py.listRepeat [0] ((5 : Int) - (((List.length offsets) : Nat) : Int))))
+
+/-- translated from `mofun_cli` in mofun/cli/mofun_cli.py (FRAGMENT: the minimum-image replication factors, numpy expression expanded over the diagonal of the cell) -/
+def mofunCliMicRepls (mic : Rat) (atoms_cell : Mat3) : Int × Int × Int :=
+  ((max (1 : Int) (Py.ceil (((2 : Rat) * mic) / atoms_cell.a.x))), (max (1 : Int) (Py.ceil (((2 : Rat) * mic) / atoms_cell.b.y))), (max (1 : Int) (Py.ceil (((2 : Rat) * mic) / atoms_cell.c.z))))
+
+/-- translated from `load_lmpdat` in mofun/atoms.py class Atoms (FRAGMENT: `masses.sort(key=lambda m: m[0])` for a given list of (type id, mass text, label) entries) -/
+def lmpSortMasses (masses : List (Int × String × (Option String))) : List (Int × String × (Option String)) :=
+  let masses : List (Int × String × (Option String)) := (Py.sortByKey masses (fun m => m.1))
+  masses
+
+/-- translated from `load_lmpdat` in mofun/atoms.py class Atoms (FRAGMENT: does a data line carry a comment) -/
+def lmpHasComment (unprocessed_line : String) : Bool :=
+  (List.contains (String.toList unprocessed_line) '#')
+
+/-- translated from `load_lmpdat` in mofun/atoms.py class Atoms (FRAGMENT: the data part of a line with a comment: the text before the FIRST `#`; `none` = no `#`) -/
+def lmpLineBeforeComment (unprocessed_line : String) : Option String := do
+  let t1 ← (Py.strSplit1? unprocessed_line '#')
+  let line : String := t1.1
+  pure line
+
+/-- translated from `load_lmpdat` in mofun/atoms.py class Atoms (FRAGMENT: the text after the FIRST `#`, before it is stripped) -/
+def lmpCommentOf (unprocessed_line : String) : Option String := do
+  let t1 ← (Py.strSplit1? unprocessed_line '#')
+  let comment : String := t1.2
+  pure comment
+
+/-- translated from `load_cml` in mofun/atoms.py class Atoms (FRAGMENT: the ElementPath pattern of the atom lookup) -/
+def cmlAtomPattern : String :=
+  ".//{*}atom"
+
+/-- translated from `load_cml` in mofun/atoms.py class Atoms (FRAGMENT: the ElementPath pattern of the bond lookup) -/
+def cmlBondPattern : String :=
+  ".//{*}bond"
+
+/-- translated from `uc_neighbor_offsets` in mofun/mofun.py; `np.meshgrid(…).T.reshape(-1, 1, 3)` and `np.matmul(uc_vectors.T, mult[0])` are expanded over the 27 multipliers -/
+def ucNeighborOffsets (uc_vectors : Mat3) : List Vec3 :=
+  [(⟨(((uc_vectors.a.x * (-1 : Rat)) + (uc_vectors.b.x * (-1 : Rat))) + (uc_vectors.c.x * (-1 : Rat))), (((uc_vectors.a.y * (-1 : Rat)) + (uc_vectors.b.y * (-1 : Rat))) + (uc_vectors.c.y * (-1 : Rat))), (((uc_vectors.a.z * (-1 : Rat)) + (uc_vectors.b.z * (-1 : Rat))) + (uc_vectors.c.z * (-1 : Rat)))⟩ : Vec3),
+   (⟨(((uc_vectors.a.x * (-1 : Rat)) + (uc_vectors.b.x * (0 : Rat))) + (uc_vectors.c.x * (-1 : Rat))), (((uc_vectors.a.y * (-1 : Rat)) + (uc_vectors.b.y * (0 : Rat))) + (uc_vectors.c.y * (-1 : Rat))), (((uc_vectors.a.z * (-1 : Rat)) + (uc_vectors.b.z * (0 : Rat))) + (uc_vectors.c.z * (-1 : Rat)))⟩ : Vec3),
+   (⟨(((uc_vectors.a.x * (-1 : Rat)) + (uc_vectors.b.x * (1 : Rat))) + (uc_vectors.c.x * (-1 : Rat))), (((uc_vectors.a.y * (-1 : Rat)) + (uc_vectors.b.y * (1 : Rat))) + (uc_vectors.c.y * (-1 : Rat))), (((uc_vectors.a.z * (-1 : Rat)) + (uc_vectors.b.z * (1 : Rat))) + (uc_vectors.c.z * (-1 : Rat)))⟩ : Vec3),
+   (⟨(((uc_vectors.a.x * (0 : Rat)) + (uc_vectors.b.x * (-1 : Rat))) + (uc_vectors.c.x * (-1 : Rat))), (((uc_vectors.a.y * (0 : Rat)) + (uc_vectors.b.y * (-1 : Rat))) + (uc_vectors.c.y * (-1 : Rat))), (((uc_vectors.a.z * (0 : Rat)) + (uc_vectors.b.z * (-1 : Rat))) + (uc_vectors.c.z * (-1 : Rat)))⟩ : Vec3),
+   (⟨(((uc_vectors.a.x * (0 : Rat)) + (uc_vectors.b.x * (0 : Rat))) + (uc_vectors.c.x * (-1 : Rat))), (((uc_vectors.a.y * (0 : Rat)) + (uc_vectors.b.y * (0 : Rat))) + (uc_vectors.c.y * (-1 : Rat))), (((uc_vectors.a.z * (0 : Rat)) + (uc_vectors.b.z * (0 : Rat))) + (uc_vectors.c.z * (-1 : Rat)))⟩ : Vec3),
+   (⟨(((uc_vectors.a.x * (0 : Rat)) + (uc_vectors.b.x * (1 : Rat))) + (uc_vectors.c.x * (-1 : Rat))), (((uc_vectors.a.y * (0 : Rat)) + (uc_vectors.b.y * (1 : Rat))) + (uc_vectors.c.y * (-1 : Rat))), (((uc_vectors.a.z * (0 : Rat)) + (uc_vectors.b.z * (1 : Rat))) + (uc_vectors.c.z * (-1 : Rat)))⟩ : Vec3),
+   (⟨(((uc_vectors.a.x * (1 : Rat)) + (uc_vectors.b.x * (-1 : Rat))) + (uc_vectors.c.x * (-1 : Rat))), (((uc_vectors.a.y * (1 : Rat)) + (uc_vectors.b.y * (-1 : Rat))) + (uc_vectors.c.y * (-1 : Rat))), (((uc_vectors.a.z * (1 : Rat)) + (uc_vectors.b.z * (-1 : Rat))) + (uc_vectors.c.z * (-1 : Rat)))⟩ : Vec3),
+   (⟨(((uc_vectors.a.x * (1 : Rat)) + (uc_vectors.b.x * (0 : Rat))) + (uc_vectors.c.x * (-1 : Rat))), (((uc_vectors.a.y * (1 : Rat)) + (uc_vectors.b.y * (0 : Rat))) + (uc_vectors.c.y * (-1 : Rat))), (((uc_vectors.a.z * (1 : Rat)) + (uc_vectors.b.z * (0 : Rat))) + (uc_vectors.c.z * (-1 : Rat)))⟩ : Vec3),
+   (⟨(((uc_vectors.a.x * (1 : Rat)) + (uc_vectors.b.x * (1 : Rat))) + (uc_vectors.c.x * (-1 : Rat))), (((uc_vectors.a.y * (1 : Rat)) + (uc_vectors.b.y * (1 : Rat))) + (uc_vectors.c.y * (-1 : Rat))), (((uc_vectors.a.z * (1 : Rat)) + (uc_vectors.b.z * (1 : Rat))) + (uc_vectors.c.z * (-1 : Rat)))⟩ : Vec3),
+   (⟨(((uc_vectors.a.x * (-1 : Rat)) + (uc_vectors.b.x * (-1 : Rat))) + (uc_vectors.c.x * (0 : Rat))), (((uc_vectors.a.y * (-1 : Rat)) + (uc_vectors.b.y * (-1 : Rat))) + (uc_vectors.c.y * (0 : Rat))), (((uc_vectors.a.z * (-1 : Rat)) + (uc_vectors.b.z * (-1 : Rat))) + (uc_vectors.c.z * (0 : Rat)))⟩ : Vec3),
+   (⟨(((uc_vectors.a.x * (-1 : Rat)) + (uc_vectors.b.x * (0 : Rat))) + (uc_vectors.c.x * (0 : Rat))), (((uc_vectors.a.y * (-1 : Rat)) + (uc_vectors.b.y * (0 : Rat))) + (uc_vectors.c.y * (0 : Rat))), (((uc_vectors.a.z * (-1 : Rat)) + (uc_vectors.b.z * (0 : Rat))) + (uc_vectors.c.z * (0 : Rat)))⟩ : Vec3),
+   (⟨(((uc_vectors.a.x * (-1 : Rat)) + (uc_vectors.b.x * (1 : Rat))) + (uc_vectors.c.x * (0 : Rat))), (((uc_vectors.a.y * (-1 : Rat)) + (uc_vectors.b.y * (1 : Rat))) + (uc_vectors.c.y * (0 : Rat))), (((uc_vectors.a.z * (-1 : Rat)) + (uc_vectors.b.z * (1 : Rat))) + (uc_vectors.c.z * (0 : Rat)))⟩ : Vec3),
+   (⟨(((uc_vectors.a.x * (0 : Rat)) + (uc_vectors.b.x * (-1 : Rat))) + (uc_vectors.c.x * (0 : Rat))), (((uc_vectors.a.y * (0 : Rat)) + (uc_vectors.b.y * (-1 : Rat))) + (uc_vectors.c.y * (0 : Rat))), (((uc_vectors.a.z * (0 : Rat)) + (uc_vectors.b.z * (-1 : Rat))) + (uc_vectors.c.z * (0 : Rat)))⟩ : Vec3),
+   (⟨(((uc_vectors.a.x * (0 : Rat)) + (uc_vectors.b.x * (0 : Rat))) + (uc_vectors.c.x * (0 : Rat))), (((uc_vectors.a.y * (0 : Rat)) + (uc_vectors.b.y * (0 : Rat))) + (uc_vectors.c.y * (0 : Rat))), (((uc_vectors.a.z * (0 : Rat)) + (uc_vectors.b.z * (0 : Rat))) + (uc_vectors.c.z * (0 : Rat)))⟩ : Vec3),
+   (⟨(((uc_vectors.a.x * (0 : Rat)) + (uc_vectors.b.x * (1 : Rat))) + (uc_vectors.c.x * (0 : Rat))), (((uc_vectors.a.y * (0 : Rat)) + (uc_vectors.b.y * (1 : Rat))) + (uc_vectors.c.y * (0 : Rat))), (((uc_vectors.a.z * (0 : Rat)) + (uc_vectors.b.z * (1 : Rat))) + (uc_vectors.c.z * (0 : Rat)))⟩ : Vec3),
+   (⟨(((uc_vectors.a.x * (1 : Rat)) + (uc_vectors.b.x * (-1 : Rat))) + (uc_vectors.c.x * (0 : Rat))), (((uc_vectors.a.y * (1 : Rat)) + (uc_vectors.b.y * (-1 : Rat))) + (uc_vectors.c.y * (0 : Rat))), (((uc_vectors.a.z * (1 : Rat)) + (uc_vectors.b.z * (-1 : Rat))) + (uc_vectors.c.z * (0 : Rat)))⟩ : Vec3),
+   (⟨(((uc_vectors.a.x * (1 : Rat)) + (uc_vectors.b.x * (0 : Rat))) + (uc_vectors.c.x * (0 : Rat))), (((uc_vectors.a.y * (1 : Rat)) + (uc_vectors.b.y * (0 : Rat))) + (uc_vectors.c.y * (0 : Rat))), (((uc_vectors.a.z * (1 : Rat)) + (uc_vectors.b.z * (0 : Rat))) + (uc_vectors.c.z * (0 : Rat)))⟩ : Vec3),
+   (⟨(((uc_vectors.a.x * (1 : Rat)) + (uc_vectors.b.x * (1 : Rat))) + (uc_vectors.c.x * (0 : Rat))), (((uc_vectors.a.y * (1 : Rat)) + (uc_vectors.b.y * (1 : Rat))) + (uc_vectors.c.y * (0 : Rat))), (((uc_vectors.a.z * (1 : Rat)) + (uc_vectors.b.z * (1 : Rat))) + (uc_vectors.c.z * (0 : Rat)))⟩ : Vec3),
+   (⟨(((uc_vectors.a.x * (-1 : Rat)) + (uc_vectors.b.x * (-1 : Rat))) + (uc_vectors.c.x * (1 : Rat))), (((uc_vectors.a.y * (-1 : Rat)) + (uc_vectors.b.y * (-1 : Rat))) + (uc_vectors.c.y * (1 : Rat))), (((uc_vectors.a.z * (-1 : Rat)) + (uc_vectors.b.z * (-1 : Rat))) + (uc_vectors.c.z * (1 : Rat)))⟩ : Vec3),
+   (⟨(((uc_vectors.a.x * (-1 : Rat)) + (uc_vectors.b.x * (0 : Rat))) + (uc_vectors.c.x * (1 : Rat))), (((uc_vectors.a.y * (-1 : Rat)) + (uc_vectors.b.y * (0 : Rat))) + (uc_vectors.c.y * (1 : Rat))), (((uc_vectors.a.z * (-1 : Rat)) + (uc_vectors.b.z * (0 : Rat))) + (uc_vectors.c.z * (1 : Rat)))⟩ : Vec3),
+   (⟨(((uc_vectors.a.x * (-1 : Rat)) + (uc_vectors.b.x * (1 : Rat))) + (uc_vectors.c.x * (1 : Rat))), (((uc_vectors.a.y * (-1 : Rat)) + (uc_vectors.b.y * (1 : Rat))) + (uc_vectors.c.y * (1 : Rat))), (((uc_vectors.a.z * (-1 : Rat)) + (uc_vectors.b.z * (1 : Rat))) + (uc_vectors.c.z * (1 : Rat)))⟩ : Vec3),
+   (⟨(((uc_vectors.a.x * (0 : Rat)) + (uc_vectors.b.x * (-1 : Rat))) + (uc_vectors.c.x * (1 : Rat))), (((uc_vectors.a.y * (0 : Rat)) + (uc_vectors.b.y * (-1 : Rat))) + (uc_vectors.c.y * (1 : Rat))), (((uc_vectors.a.z * (0 : Rat)) + (uc_vectors.b.z * (-1 : Rat))) + (uc_vectors.c.z * (1 : Rat)))⟩ : Vec3),
+   (⟨(((uc_vectors.a.x * (0 : Rat)) + (uc_vectors.b.x * (0 : Rat))) + (uc_vectors.c.x * (1 : Rat))), (((uc_vectors.a.y * (0 : Rat)) + (uc_vectors.b.y * (0 : Rat))) + (uc_vectors.c.y * (1 : Rat))), (((uc_vectors.a.z * (0 : Rat)) + (uc_vectors.b.z * (0 : Rat))) + (uc_vectors.c.z * (1 : Rat)))⟩ : Vec3),
+   (⟨(((uc_vectors.a.x * (0 : Rat)) + (uc_vectors.b.x * (1 : Rat))) + (uc_vectors.c.x * (1 : Rat))), (((uc_vectors.a.y * (0 : Rat)) + (uc_vectors.b.y * (1 : Rat))) + (uc_vectors.c.y * (1 : Rat))), (((uc_vectors.a.z * (0 : Rat)) + (uc_vectors.b.z * (1 : Rat))) + (uc_vectors.c.z * (1 : Rat)))⟩ : Vec3),
+   (⟨(((uc_vectors.a.x * (1 : Rat)) + (uc_vectors.b.x * (-1 : Rat))) + (uc_vectors.c.x * (1 : Rat))), (((uc_vectors.a.y * (1 : Rat)) + (uc_vectors.b.y * (-1 : Rat))) + (uc_vectors.c.y * (1 : Rat))), (((uc_vectors.a.z * (1 : Rat)) + (uc_vectors.b.z * (-1 : Rat))) + (uc_vectors.c.z * (1 : Rat)))⟩ : Vec3),
+   (⟨(((uc_vectors.a.x * (1 : Rat)) + (uc_vectors.b.x * (0 : Rat))) + (uc_vectors.c.x * (1 : Rat))), (((uc_vectors.a.y * (1 : Rat)) + (uc_vectors.b.y * (0 : Rat))) + (uc_vectors.c.y * (1 : Rat))), (((uc_vectors.a.z * (1 : Rat)) + (uc_vectors.b.z * (0 : Rat))) + (uc_vectors.c.z * (1 : Rat)))⟩ : Vec3),
+   (⟨(((uc_vectors.a.x * (1 : Rat)) + (uc_vectors.b.x * (1 : Rat))) + (uc_vectors.c.x * (1 : Rat))), (((uc_vectors.a.y * (1 : Rat)) + (uc_vectors.b.y * (1 : Rat))) + (uc_vectors.c.y * (1 : Rat))), (((uc_vectors.a.z * (1 : Rat)) + (uc_vectors.b.z * (1 : Rat))) + (uc_vectors.c.z * (1 : Rat)))⟩ : Vec3)]
+
+/-- translated from `load_p1_cif` in mofun/atoms.py class Atoms (FRAGMENT: the name of the function that reads one entry of the charge column) -/
+def cifChargeReader : String :=
+  "tofloat"
+
+/-- translated from `load_p1_cif` in mofun/atoms.py class Atoms (FRAGMENT: the name of the function that reads one coordinate) -/
+def cifCoordReader : String :=
+  "tofloat"
 
 end Mofun.Generated.Code
